@@ -84,7 +84,7 @@ Inductive smeth :=
 | SMap (km vm : smeth)
 | SSimpleObj (names : list string)
 | SObj (fs : list (sfield smeth))
-| SObjAdditional (fs : list (sfield smeth)) (field_names : list string)
+| SObjAdditional (fs : list (sfield smeth)) (field_names : list string) (am : smeth)   (* am: the method for additional values *)
 | STupleCheck (ms : list smeth)
 | STuple (ms : list smeth)
 | SCheckedTuple (n : nat) (m : smeth)     (* CheckedTupleMethod (union alternatives) *)
@@ -250,7 +250,7 @@ Definition scompile_obj (u : univ) (o : sopts) (cid : nat) (cd : cdef) : smeth :
   match order_fields cd (fs ++ ms)%list with
   | None => SCompileError "ValueError: Cyclic after/before ordering"
   | Some base =>
-      if (is_typed_dict cd && so_addprops o)%bool then SObjAdditional base (map fd_name (cd_fields cd))
+      if (is_typed_dict cd && so_addprops o)%bool then SObjAdditional base (map fd_name (cd_fields cd)) (if pt_any o then SIdentity else SAny)
       else if negb (forallb is_plain_identity base) then SObj base
       else if (match cd_kind cd with KData => true | _ => false end && pt_dataclasses o)%bool then SIdentity
       else SSimpleObj (map sfield_name base)
@@ -406,7 +406,7 @@ Section SExec.
                          | None => SRCrash "AttributeError"
                          end
              end) names []
-      | SObj fs | SObjAdditional fs _ =>
+      | SObj fs | SObjAdditional fs _ _ =>
           let base :=
             (fix loop (fs : list (sfield smeth)) (acc : list (value * value)) : list (value * value) + sres :=
                match fs with
@@ -451,26 +451,22 @@ Section SExec.
                end) fs [] in
           match base, m with
           | inr e, _ => e
-          | inl acc, SObjAdditional _ field_names =>
-              match fuel with
-              | O => SRFuel
-              | S f =>
-                  match v with
-                  | VDict kvs =>
-                      (fix extra (kvs : list (value * value)) (acc : list (value * value)) : sres :=
-                         match kvs with
-                         | [] => SROk (VDict acc)
-                         | (VStr k, x) :: rest =>
-                             if (existsb (String.eqb k) field_names
-                                 || existsb (fun kv => match fst kv with VStr k' => String.eqb k k' | _ => false end) acc)%bool
-                             then extra rest acc
-                             else match sexec f (if pt_any o then SIdentity else SAny) x with
-                                  | SROk y => extra rest (result_set acc k y)
-                                  | other => other end
-                         | _ :: rest => extra rest acc
-                         end) kvs acc
-                  | _ => SRCrash "AttributeError: items"
-                  end
+          | inl acc, SObjAdditional _ field_names am =>
+              match v with
+              | VDict kvs =>
+                  (fix extra (kvs : list (value * value)) (acc : list (value * value)) : sres :=
+                     match kvs with
+                     | [] => SROk (VDict acc)
+                     | (VStr k, x) :: rest =>
+                         if (existsb (String.eqb k) field_names
+                             || existsb (fun kv => match fst kv with VStr k' => String.eqb k k' | _ => false end) acc)%bool
+                         then extra rest acc
+                         else match go am x with
+                              | SROk y => extra rest (result_set acc k y)
+                              | other => other end
+                     | _ :: rest => extra rest acc
+                     end) kvs acc
+              | _ => SRCrash "AttributeError: items"
               end
           | inl acc, _ => SROk (VDict acc)
           end
